@@ -85,17 +85,17 @@ func c06Fingerprint(c *core.Ctx, r *core.Reporter) {
 			continue
 		}
 		for _, f := range core.Fields(n) {
-			if f.Name() == "Kind" || f.Name() == "Loc" {
+			if core.N(f) == "Kind" || core.N(f) == "Loc" {
 				continue
 			}
-			key := tn + "." + f.Name()
+			key := tn + "." + core.N(f)
 			if why, ok := fingerprintExceptions[key]; ok {
 				r.Exists(key, n.Obj().Pos(), "excepted: %s", why)
 				continue
 			}
-			r.Check(read[tn][f.Name()], key, nodes[0].Pos(),
+			r.Check(read[tn][core.N(f)], key, nodes[0].Pos(),
 				"field read by the fingerprint traversal",
-				"the fingerprint handles "+tn+" but never reads its field "+f.Name()+": two documents differing only there share one cache entry, so the second is served the first one's plan")
+				"the fingerprint handles "+tn+" but never reads its field "+core.N(f)+": two documents differing only there share one cache entry, so the second is served the first one's plan")
 		}
 	}
 	// the traversal must handle the types that can change a response
@@ -116,7 +116,7 @@ func c06Fingerprint(c *core.Ctx, r *core.Reporter) {
 				continue
 			}
 			var want []string
-			switch in.Obj().Name() {
+			switch core.N(in.Obj()) {
 			case "Value":
 				want = c.DeclaredImplementers("language/ast", "Value")
 			case "Selection":
@@ -127,14 +127,14 @@ func c06Fingerprint(c *core.Ctx, r *core.Reporter) {
 				continue
 			}
 			if len(want) < 3 {
-				r.Unknown(core.DeclName(fd)+"/switch "+in.Obj().Name(), sw.Node.Pos(), "closed set of ast.%s not found in the `var _ I = (*T)(nil)` declarations", in.Obj().Name())
+				r.Unknown(core.DeclName(fd)+"/switch "+core.N(in.Obj()), sw.Node.Pos(), "closed set of ast.%s not found in the `var _ I = (*T)(nil)` declarations", core.N(in.Obj()))
 				continue
 			}
 			miss := core.Missing(want, sw.Cases)
-			key := core.DeclName(fd) + "/switch " + in.Obj().Name()
+			key := core.DeclName(fd) + "/switch " + core.N(in.Obj())
 			r.Check(len(miss) == 0, key, sw.Node.Pos(),
-				fmt.Sprintf("covers all %d implementers of ast.%s", len(want), in.Obj().Name()),
-				"type switch over ast."+in.Obj().Name()+" misses "+core.Join(miss)+": nodes of that kind are not part of the cache key")
+				fmt.Sprintf("covers all %d implementers of ast.%s", len(want), core.N(in.Obj())),
+				"type switch over ast."+core.N(in.Obj())+" misses "+core.Join(miss)+": nodes of that kind are not part of the cache key")
 		}
 	}
 }
@@ -201,7 +201,7 @@ func c06Schema(c *core.Ctx, r *core.Reporter) {
 				continue
 			}
 			if u, ok := pair[0].(*ssa.UnOp); ok {
-				if f := core.FieldOf(u.X); f != nil && f.Name() == "schema" {
+				if f := core.FieldOf(u.X); f != nil && core.N(f) == "schema" {
 					cmp = bo
 				}
 			}
@@ -263,7 +263,7 @@ func c06LRU(c *core.Ctx, r *core.Reporter) {
 			return per[b]
 		}
 		for _, w := range core.WritesIn(fn) {
-			if w.Owner == nil || w.Owner.Obj().Name() != "PlanCache" || w.Field == nil {
+			if w.Owner == nil || core.N(w.Owner.Obj()) != "PlanCache" || w.Field == nil {
 				continue
 			}
 			k := get(w.In.Block())
@@ -272,13 +272,13 @@ func c06LRU(c *core.Ctx, r *core.Reporter) {
 				k.listRm++
 			case w.Kind == "list" && (w.Desc == "PushFront" || w.Desc == "PushBack"):
 				k.listIns++
-			case w.Kind == "delete" && w.Field.Name() == "entries":
+			case w.Kind == "delete" && core.N(w.Field) == "entries":
 				k.mapDel++
-			case w.Kind == "map" && w.Field.Name() == "entries":
+			case w.Kind == "map" && core.N(w.Field) == "entries":
 				k.mapIns++
-			case w.Kind == "field" && w.Field.Name() == "order":
+			case w.Kind == "field" && core.N(w.Field) == "order":
 				k.ordStore++
-			case w.Kind == "field" && w.Field.Name() == "entries":
+			case w.Kind == "field" && core.N(w.Field) == "entries":
 				k.entStore++
 			}
 		}
@@ -319,11 +319,11 @@ func c06LRU(c *core.Ctx, r *core.Reporter) {
 				continue
 			}
 			call, ok := bo.X.(*ssa.Call)
-			if !ok || call.Call.StaticCallee() == nil || call.Call.StaticCallee().Name() != "Len" {
+			if !ok || call.Call.StaticCallee() == nil || core.N(call.Call.StaticCallee()) != "Len" {
 				continue
 			}
 			if u, ok := bo.Y.(*ssa.UnOp); ok {
-				if f := core.FieldOf(u.X); f != nil && f.Name() == "MaxEntries" && ins != nil && ins.Block().Dominates(h) {
+				if f := core.FieldOf(u.X); f != nil && core.N(f) == "MaxEntries" && ins != nil && ins.Block().Dominates(h) {
 					okLoop = true
 					loopPos = iff.Pos()
 				}
@@ -346,7 +346,7 @@ func c06LRU(c *core.Ctx, r *core.Reporter) {
 				return
 			}
 			if u, ok := bo.X.(*ssa.UnOp); ok {
-				if f := core.FieldOf(u.X); f != nil && f.Name() == "MaxEntries" {
+				if f := core.FieldOf(u.X); f != nil && core.N(f) == "MaxEntries" {
 					norm = true
 				}
 			}
@@ -373,7 +373,7 @@ func c06PerCall(c *core.Ctx, r *core.Reporter) {
 			return true
 		}
 		if call, ok := as.Rhs[0].(*ast.CallExpr); ok {
-			if f := core.CalleeObj(info, call); f != nil && f.Name() == "normalizeDocument" {
+			if f := core.CalleeObj(info, call); f != nil && core.N(f) == "normalizeDocument" {
 				synth = core.ObjOf(info, as.Lhs[1])
 			}
 		}
@@ -509,7 +509,7 @@ func c06PerCall(c *core.Ctx, r *core.Reporter) {
 				return
 			}
 			f := core.FieldOf(st.Addr)
-			if f == nil || f.Name() != "Args" {
+			if f == nil || core.N(f) != "Args" {
 				return
 			}
 			if fa, ok := st.Addr.(*ssa.FieldAddr); !ok || core.TypeName(fa.X.Type()) != "ResolveParams" {
@@ -518,7 +518,7 @@ func c06PerCall(c *core.Ctx, r *core.Reporter) {
 			n++
 			for _, o := range core.Origins(st.Val) {
 				if u, ok := o.(*ssa.UnOp); ok && u.Op == token.MUL {
-					if ff := core.FieldOf(u.X); ff != nil && ff.Name() == "static" {
+					if ff := core.FieldOf(u.X); ff != nil && core.N(ff) == "static" {
 						bad = true
 					}
 				}
@@ -577,7 +577,7 @@ func c06OwnDoc(c *core.Ctx, r *core.Reporter) {
 		core.Instrs(fn, func(in ssa.Instruction) {
 			if al, ok := in.(*ssa.Alloc); ok {
 				if nm := core.NamedOf(al.Type()); nm != nil && nm.Obj().Pkg() != nil && nm.Obj().Pkg().Name() == "ast" {
-					allocated[nm.Obj().Name()] = true
+					allocated[core.N(nm.Obj())] = true
 				}
 			}
 		})
@@ -590,7 +590,7 @@ func c06OwnDoc(c *core.Ctx, r *core.Reporter) {
 		}
 		for _, w := range core.WritesIn(fn) {
 			if domainOf(w) == "ast" && !w.Fresh {
-				written[w.Owner.Obj().Name()+"."+w.Field.Name()] = w.In.Pos()
+				written[core.N(w.Owner.Obj())+"."+core.N(w.Field)] = w.In.Pos()
 			}
 		}
 	}
@@ -649,7 +649,7 @@ func c06OwnDoc(c *core.Ctx, r *core.Reporter) {
 		"normalisation is applied to the original operation instead of its clone: the caller's document is rewritten")
 	okVD := true
 	for _, w := range core.WritesIn(nd) {
-		if w.Field != nil && w.Field.Name() == "VariableDefinitions" {
+		if w.Field != nil && core.N(w.Field) == "VariableDefinitions" {
 			if fa, ok := w.In.(*ssa.Store).Addr.(*ssa.FieldAddr); !ok || !fromClone(fa.X) {
 				okVD = false
 			}
@@ -712,7 +712,7 @@ func c06Wrappers(c *core.Ctx, r *core.Reporter) {
 				switch {
 				case f != nil && types.Object(f) == self:
 					rec = i
-				case f != nil && strings.HasPrefix(f.Name(), "write"):
+				case f != nil && strings.HasPrefix(core.N(f), "write"):
 					writes = append(writes, i)
 				}
 				return true
